@@ -1,0 +1,49 @@
+//go:build verif
+
+// Machine-checked contracts for package kdcproxy (comment-only; read by
+// /verif/gocv). Nothing in this file is compiled into the gateway.
+package kdcproxy
+
+//@ func decode
+//@   assigns #asn1OK, #asn1RestLen
+//@   ensures[C20] strict: err == nil ==> msg != nil && fresh(msg) && #asn1OK && #asn1RestLen == 0
+//@   ensures[C20] failed: err != nil ==> msg == nil
+//@   nopanic[C10]
+
+//@ func encode
+//@   assigns #asn1Marshalled
+//@   ensures[C20] wrapped: err == nil ==> dyn(#asn1Marshalled, KdcProxyMsg).Message == krb5data && dyn(#asn1Marshalled, KdcProxyMsg).Realm == "" && dyn(#asn1Marshalled, KdcProxyMsg).Flags == 0
+//@   nopanic[C10]
+
+// every reader sends exactly one value, whatever the connection does
+//@ func awaitReply
+//@   requires[C10] conn: conn != nil && reply != nil
+//@   assigns region(chan), region(arr.bv8)
+//@   ensures[C20] once: chanSent(reply) == old(chanSent(reply)) + 1
+//@   spawn ghostset chanSent(reply) = old(chanSent(reply)) + 1
+//@   nopanic[C10]
+
+//@ func (*KerberosProxy).forward
+//@   requires[C10] wf: k != nil && k.krb5Config != nil
+//@   assigns *
+//@   ghostset #kdcForwards = old(#kdcForwards) + 1
+//@   ensures[C20] silent: #status == old(#status) && #bodyWrites == old(#bodyWrites)
+//@   loop 2 invariant[C20] started: -1 <= rangeindex && rangeindex < len(kdcs) && 0 <= pending && pending <= rangeindex + 1 && chanSent(replies) == pending && chanRecvd(replies) == 0 && len(data) >= 4 && len(kdcs) <= 128
+//@   loop 3 invariant closing: -1 <= rangeindex
+//@   loop 4 invariant[C20] draining: 0 <= pending && 0 <= chanRecvd(replies) && chanRecvd(replies) <= chanSent(replies) && chanSent(replies) <= 128 && chanSent(replies) - chanRecvd(replies) == pending
+//@   site net.Conn.Write requires[C20] verbatim: (kdcs[i].Proto == "tcp" ==> arg1 == data) && (kdcs[i].Proto != "tcp" ==> arg1 == data[4:])
+//@   site net.Conn.Write requires[C20] deadline: #deadlineConn == arg0
+//@   nopanic[C10]
+
+//@ func (KerberosProxy).Handler
+//@   requires[C10] wf: r.Body != nil && k.krb5Config != nil && r.ContentLength >= -1
+//@   requires start: #status == 0 && #kdcForwards == 0 && #bodyWrites == 0
+//@   assigns *
+//@   ensures[C20] method: old(r.Method) != "POST" ==> #status == 405 && #kdcForwards == 0
+//@   ensures[C20] length: old(r.Method) == "POST" && old(r.ContentLength) == -1 ==> #status == 411 && #kdcForwards == 0
+//@   ensures[C20] tooLarge: old(r.Method) == "POST" && old(r.ContentLength) > 131072 ==> #status == 413 && #kdcForwards == 0
+//@   ensures[C20] malformed: #status == 400 ==> #kdcForwards == 0
+//@   ensures[C20] answered: #status != 0
+//@   site (*KerberosProxy).forward requires[C20] validated: #status == 0 && r.Method == "POST" && 0 <= r.ContentLength && r.ContentLength <= 131072 && #readFullOK && #asn1OK && #asn1RestLen == 0 && arg1 == msg.Realm && arg2 == msg.Message
+//@   site net/http.ResponseWriter.Write requires[C20] reply: #kdcForwards == 1 && arg1 == reply
+//@   nopanic[C10]
